@@ -201,6 +201,35 @@ func (tr *FnTrans) instr(in ssa.Instruction) {
 			tr.fact(sEq(sApp(f, c), bv.T))
 		}
 		tr.vals[x] = Val{K: KRef, T: c, Typ: x.Type()}
+		// the closure's preconditions must hold when it is created (its free
+		// variables are bound now; they are assumed not to be reassigned later)
+		if cfc := tr.w.contractFor(fn); cfc != nil && !tr.scan && len(cfc.Requires) > 0 {
+			env := map[string]Val{}
+			for i, fv := range fn.FreeVars {
+				env[fv.Name()] = tr.val(x.Bindings[i])
+			}
+			ec := &evalCtx{vc: vc, env: env, heap: tr.cur, old: tr.cur, pkg: tr.pkg, entryAlloc: vc.hget(tr.cur, compAlloc)}
+			ok := true
+			for _, cl := range cfc.Requires {
+				if strings.HasPrefix(cl.Label, "param-") {
+					continue // concerns the closure's own parameters
+				}
+				func() {
+					defer func() {
+						if r := recover(); r != nil {
+							if _, isVC := r.(vcError); isVC {
+								ok = false
+								return
+							}
+							panic(r)
+						}
+					}()
+					tr.oblig("closure-pre", relName(fn)+"."+cl.Label, ec.evalBool(cl.E), "precondition of closure "+relName(fn)+" holds where it is created: "+cl.Text)
+				}()
+			}
+			_ = ok
+			vc.assume("variables captured by a closure are not reassigned after the closure is created")
+		}
 	case *ssa.Lookup:
 		tr.lookup(x)
 	case *ssa.MapUpdate:
@@ -230,18 +259,34 @@ func (tr *FnTrans) instr(in ssa.Instruction) {
 		if x.Call.IsInvoke() {
 			args = append([]Val{tr.val(x.Call.Value)}, args...)
 		}
-		// only unconditional defers (the block must dominate every exit)
-		tr.defers = append(tr.defers, deferInfo{block: tr.curBlock, call: x, args: args})
+		// a ghost flag records that the defer statement was executed; at
+		// RunDefers the call happens under that flag
+		flag := fmt.Sprintf("D$defer%d", len(tr.defers))
+		vc.compDecl(flag, sortBool)
+		tr.cur.m[flag] = "true"
+		tr.defers = append(tr.defers, deferInfo{block: tr.curBlock, call: x, args: args, flag: flag})
 	case *ssa.RunDefers:
 		for i := len(tr.defers) - 1; i >= 0; i-- {
 			d := tr.defers[i]
-			if !d.block.Dominates(tr.curBlock) {
-				panic(vcErrorf("conditional defer is not supported"))
-			}
 			if li := tr.inLoop(d.block); li != nil && !li.blocks[tr.curBlock.Index] {
 				panic(vcErrorf("defer inside a loop is not supported"))
 			}
+			if d.block.Dominates(tr.curBlock) {
+				tr.callWith(&d.call.Call, d.call, d.call.Pos(), d.args)
+				continue
+			}
+			// conditional defer: executed iff the defer statement was reached
+			flag, ok := tr.cur.m[d.flag]
+			if !ok || flag == "false" {
+				continue // not executed on any path to this exit
+			}
+			save := tr.curReach
+			before := tr.cur.clone()
+			tr.curReach = sAnd(save, flag)
 			tr.callWith(&d.call.Call, d.call, d.call.Pos(), d.args)
+			after := tr.cur
+			tr.curReach = save
+			tr.cur = tr.mergeHeaps([]string{flag, "true"}, []*Heap{after, before})
 		}
 	case *ssa.Go:
 		tr.goStmt(x)
@@ -354,6 +399,11 @@ func (tr *FnTrans) unop(x *ssa.UnOp) {
 				r = tr.vals[x]
 			}
 			tr.fact(vc.typeFacts(tr.cur, r))
+			if g, ok := x.X.(*ssa.Global); ok && r.K == KIface && g.Pkg != nil && !strings.HasPrefix(g.Pkg.Pkg.Path(), modPath) && types.Identical(x.Type(), types.Universe.Lookup("error").Type()) {
+				// error sentinels of dependencies (io.EOF, tomb.ErrDying ...) are non-nil
+				tr.fact(sNot(sEq("(i-tag "+r.T+")", "0")))
+				vc.assume("error sentinel of a dependency is non-nil: " + g.Pkg.Pkg.Path() + "." + g.Name())
+			}
 		case KRef:
 			tr.oblig("nil", "", sNot(sEq(v.T, "0")), "nil dereference at "+tr.posStr(x.Pos()))
 			r := vc.loadStruct(tr.cur, v.Typ, v.T)
@@ -407,6 +457,16 @@ func (tr *FnTrans) arith(v ssa.Value, t types.Type, term string, pos token.Pos) 
 	}
 	if !signed {
 		tr.define(v, Val{K: KInt, T: "(mod " + term + " " + pow2(bits).String() + ")", Typ: t})
+		return
+	}
+	if bo, ok := v.(*ssa.BinOp); ok && (tr.unmodelled[bo.X] || tr.unmodelled[bo.Y]) {
+		// arithmetic on a value that is not modelled (derived from a float):
+		// the result is an arbitrary value of the type; Go wraps silently
+		r := tr.freshVal(tr.ssaName(v), t)
+		tr.fact(tr.vc.typeFacts(tr.cur, r))
+		tr.vals[v] = r
+		tr.unmodelled[v] = true
+		tr.vc.assume("integer arithmetic on values converted from floating point is not modelled (result arbitrary)")
 		return
 	}
 	if tr.wrapping {
@@ -718,6 +778,13 @@ func (tr *FnTrans) convert(x *ssa.Convert) {
 		r := tr.freshVal("conv", to)
 		tr.fact(vc.typeFacts(tr.cur, r))
 		tr.vals[x] = r
+		if kt == KInt {
+			// integer obtained from a float: its value is not modelled
+			if tr.unmodelled == nil {
+				tr.unmodelled = map[ssa.Value]bool{}
+			}
+			tr.unmodelled[x] = true
+		}
 	case kf == kt:
 		v.Typ = to
 		tr.vals[x] = v
